@@ -3,7 +3,7 @@ import copy, time
 from . import runner, leanside, rustgen
 from .spec import hx, unhx
 
-TYPE_NEEDS_GENERIC = {'T': ('ty', 'where', 'lt_ty'), 'RefStr': ('lt', 'lt_ty'), 'Cg': ('const',)}
+TYPE_NEEDS_GENERIC = {'T': ('ty', 'where', 'lt_ty'), 'RefStr': ('lt', 'lt_ty'), 'Cg': ('const',), 'OptT': ('ty_nd',)}
 
 
 class Shrinker:
@@ -94,6 +94,8 @@ class Shrinker:
         if e.generics in ('ty', 'where', 'lt_ty') and not any('T' in v.ftypes for v in e.variants):
             return False
         if e.generics in ('lt', 'lt_ty') and not any('RefStr' in v.ftypes for v in e.variants):
+            return False
+        if e.generics == 'ty_nd' and not any('OptT' in v.ftypes for v in e.variants):
             return False
         if e.generics == 'const' and not any('Cg' in v.ftypes for v in e.variants):
             return False
